@@ -97,7 +97,7 @@ func (m heapManager) run() {
 			close(data.iterPop)
 		case h_fix:
 			data := req.data.(fixData)
-			if data.bar.index < 0 {
+			if data.bar.index < 0 || data.bar.popping {
 				break
 			}
 			data.bar.priority = data.priority
